@@ -210,15 +210,8 @@ func hostileCases() []hostileCase {
 		return ProposalWithdrawFunds(hid, U(w, 1), olt(50), U(w, 1).Addr, "hostile")
 	})
 
-	// a stranger expired the proposal while it was still being funded (see the EXPIRE_VOTES scenarios);
-	// after the funding deadline the funders try to get their money back
-	add("ProposalWithdrawFunds", "after-stranger-expired-it-during-funding", func(w *harness.World) []harness.BlockSpec {
-		p := gFund(w)
-		p = append(p, blk(ExpireVotes(hid, U(w, 2), "user-expire")))
-		return append(p, empty(3)...)
-	}, func(w *harness.World) *harness.TxSpec {
-		return ProposalWithdrawFunds(hid, U(w, 1), olt(50), U(w, 1).Addr, "hostile")
-	})
+	// ("after a stranger expired the proposal during funding": characterised a defect of the pinned tree; the
+	// handler refuses a user-sent EXPIRE_VOTES outside the voting stage since the repair, the case is gone)
 
 	// ---- ExpireVotes (public router) ----
 	add("ExpireVotes", "penniless-stranger-zero-fee", gVote, func(w *harness.World) *harness.TxSpec {
